@@ -3,9 +3,9 @@ package main
 // ssahelp.go — recognisers for common go/ssa shapes (append, composite literals, closures, heap ops).
 
 import (
-	"sort"
 	"go/token"
 	"go/types"
+	"sort"
 	"strings"
 
 	"golang.org/x/tools/go/ssa"
